@@ -456,7 +456,8 @@ Section Rehash.
   Proof.
     intros Hij Hj.
     set (a := nth i l d). set (b := nth j l d).
-    assert (Hd : exists l1 l2 l3, l = l1 ++ a :: l2 ++ b :: l3 /\ length l1 = i /                                  length l1 + S (length l2) = j).
+    assert (Hd : exists l1 l2 l3, l = l1 ++ a :: l2 ++ b :: l3 /\ length l1 = i /\
+                                  length l1 + S (length l2) = j).
     { set (r := skipn (S i) l).
       assert (Hr : j - S i < length r) by (unfold r; rewrite skipn_length; lia).
       assert (Eb : nth (j - S i) r d = b).
@@ -494,7 +495,12 @@ Section Rehash.
   Definition b2n (b : bool) : nat := if b then 1 else 0.
 
   Lemma set_ctrl_counts t i b : Shape B T t -> Mirror B T t -> i < nb T t -> valid_ctrl b ->
-    exists t', set_ctrl B T t i b = Ok t' /      mask t' = mask t /\ slots t' = slots t /\ items t' = items t /      Shape B T t' /\ Mirror B T t' /      (forall j, j < nb T t -> byte T t' j = if j =? i then b else byte T t j) /      nfull t' + b2n (is_full (byte T t i)) = nfull t + b2n (is_full b) /      ndel t' + b2n (is_deleted (byte T t i)) = ndel t + b2n (is_deleted b).
+    exists t', set_ctrl B T t i b = Ok t' /\
+      mask t' = mask t /\ slots t' = slots t /\ items t' = items t /\
+      Shape B T t' /\ Mirror B T t' /\
+      (forall j, j < nb T t -> byte T t' j = if j =? i then b else byte T t j) /\
+      nfull t' + b2n (is_full (byte T t i)) = nfull t + b2n (is_full b) /\
+      ndel t' + b2n (is_deleted (byte T t i)) = ndel t + b2n (is_deleted b).
   Proof.
     intros HS HM Hi Hb.
     destruct (set_ctrl_spec B T HW t i b HS HM Hi Hb) as (t' & E & Em & Esl & Eit & _ & HS' & HM' & Hby & _).
@@ -523,4 +529,500 @@ Section Rehash.
     - unfold nfull, ndel in *. rewrite (real_ctrl_ext T t2 t' Em' Ec'). rewrite Eit', Eit2, Ecnt. exact Hit.
     - rewrite Eit', Eit2, Em', Em2. exact Hcap.
   Qed.
+
+  (* ---------------------------------------------------------------------------------------- *)
+  (* H3: the inner loop                                                                         *)
+  (* ---------------------------------------------------------------------------------------- *)
+  Lemma same_group_refl m i hash : n_same_group GW m i i hash = true.
+  Proof. unfold n_same_group, is_in_same_group. apply Z.eqb_refl. Qed.
+
+  Theorem rehash_inner_spec : forall fuel t i,
+    RInv t -> i < nb T t -> byte T t i = DELETED -> ndel t < fuel ->
+    exists t' ok, rehash_inner B T hasher fuel t i = Ok (t', ok) /\
+      RInv t' /\ mask t' = mask t /\ items t' = items t /\
+      Permutation (occupants T t') (occupants T t) /\
+      ndel t' <= ndel t /\
+      (forall j, j < nb T t -> byte T t' j = DELETED -> byte T t j = DELETED) /\
+      (ok = true -> byte T t' i <> DELETED /\ ndel t' < ndel t) /\
+      (ok = false -> exists e, In e (occupants T t) /\ hasher e = None).
+  Proof.
+    induction fuel as [|f IH]; intros t i HR Hi Hbi Hfuel; [lia|].
+    pose proof HR as (HS & HM & Hsl & Hit & Hcap).
+    pose proof HS as (_ & _ & Hlen & _).
+    pose proof (RInv_mask_nz t HR) as Hnz.
+    destruct (slot T t i) as [e|] eqn:Ee;
+      [|exfalso; exact (proj2 (Hsl i Hi) (or_intror Hbi) Ee)].
+    assert (HinE : In e (occupants T t)).
+    { apply occupants_In. exists i. split; [lia|exact Ee]. }
+    cbn [rehash_inner]. unfold hash_at.
+    rewrite (slot_ref_ok T t i e Hnz ltac:(lia) Ee). cbn [bind].
+    destruct (hasher e) as [hash|] eqn:Eh.
+    2:{ exists t, false. split; [reflexivity|]. split; [exact HR|]. split; [reflexivity|].
+        split; [reflexivity|]. split; [apply Permutation_refl|]. split; [lia|].
+        split; [intros j _ X; exact X|]. split; [discriminate|].
+        intros _. exists e. split; assumption. }
+    destruct (find_insert_slot_terminates_E t HS HM (RInv_empty t HR) hash) as (ni & Eni & Hni & Hsp).
+    rewrite Eni. cbn [bind].
+    pose proof (ndel_pos t i HS Hi Hbi) as Hdpos.
+    destruct (n_same_group GW (mask t) i ni hash) eqn:Esg.
+    - (* same probe group: just write the tag *)
+      destruct (set_ctrl_counts t i (tag_full hash) HS HM Hi (tag_full_valid hash))
+        as (t1 & E1 & Em1 & Esl1 & Eit1 & HS1 & HM1 & Hb1 & Cf & Cd).
+      unfold set_ctrl_hash. rewrite E1. cbn [bind].
+      rewrite Hbi in Cf, Cd. rewrite tag_full_is_full in Cf.
+      rewrite (full_not_deleted _ (tag_full_is_full hash)) in Cd.
+      change (is_full DELETED) with false in Cf. change (is_deleted DELETED) with true in Cd.
+      cbn [b2n] in Cf, Cd.
+      exists t1, true. split; [reflexivity|]. split.
+      { apply (RInv_ext t t1 t1 HR HS1 HM1 Em1 Eit1); try reflexivity; [lia|rewrite Esl1; exact Hlen|].
+        intros j Hj. unfold slot. rewrite Esl1. fold (slot T t j). rewrite (Hsl j Hj), (Hb1 j Hj).
+        destruct (Nat.eqb_spec j i) as [->|Hne]; [|reflexivity].
+        rewrite tag_full_is_full. split; intros _; [left; reflexivity|right; exact Hbi]. }
+      split; [exact Em1|]. split; [exact Eit1|].
+      split; [rewrite !occupants_occ, Esl1; apply Permutation_refl|].
+      split; [lia|]. split.
+      { intros j Hj. rewrite (Hb1 j Hj). destruct (Nat.eqb_spec j i) as [->|Hne]; [|intros X; exact X].
+        intros _. exact Hbi. }
+      split; [|discriminate]. intros _. split; [|lia].
+      rewrite (Hb1 i Hi), Nat.eqb_refl. apply tag_full_not_deleted.
+    - assert (Hne : ni <> i).
+      { intros ->. rewrite same_group_refl in Esg. discriminate Esg. }
+      rewrite (ctrl_at_ok B T t HS ni Hni). cbn [bind].
+      destruct (set_ctrl_counts t ni (tag_full hash) HS HM Hni (tag_full_valid hash))
+        as (t1 & E1 & Em1 & Esl1 & Eit1 & HS1 & HM1 & Hb1 & Cf1 & Cd1).
+      unfold set_ctrl_hash. rewrite E1. cbn [bind].
+      rewrite tag_full_is_full in Cf1. rewrite (full_not_deleted _ (tag_full_is_full hash)) in Cd1.
+      assert (Enb1 : nb T t1 = nb T t) by (unfold nb, buckets; rewrite Em1; reflexivity).
+      assert (Hnz1 : mask t1 <> 0) by (rewrite Em1; exact Hnz).
+      assert (Hb1i : byte T t1 i = DELETED).
+      { rewrite (Hb1 i Hi). destruct (Nat.eqb_spec i ni); [lia|exact Hbi]. }
+      destruct (special_cases _ (byte_valid B T t ni HS ltac:(lia)) Hsp) as [Hpe | Hpd].
+      + (* the target bucket was EMPTY: move the element there *)
+        rewrite Hpe in Cf1, Cd1 |- *.
+        change (EMPTY =? EMPTY)%Z with true. cbv iota.
+        change (is_full EMPTY) with false in Cf1. change (is_deleted EMPTY) with false in Cd1.
+        cbn [b2n] in Cf1, Cd1.
+        assert (Hnone : slot T t ni = None).
+        { destruct (slot T t ni) eqn:En; [|reflexivity]. exfalso.
+          assert (X : slot T t ni <> None) by (rewrite En; discriminate).
+          apply (Hsl ni Hni) in X. rewrite Hpe in X. destruct X as [X | X]; discriminate X. }
+        destruct (set_ctrl_counts t1 i EMPTY HS1 HM1 ltac:(lia) valid_EMPTY)
+          as (t2 & E2 & Em2 & Esl2 & Eit2 & HS2 & HM2 & Hb2 & Cf2 & Cd2).
+        rewrite E2. cbn [bind].
+        rewrite Hb1i in Cf2, Cd2.
+        change (is_full DELETED) with false in Cf2. change (is_deleted DELETED) with true in Cd2.
+        change (is_full EMPTY) with false in Cf2. change (is_deleted EMPTY) with false in Cd2.
+        cbn [b2n] in Cf2, Cd2.
+        assert (Ee2 : slot T t2 i = Some e) by (unfold slot; rewrite Esl2, Esl1; exact Ee).
+        assert (Hnz2 : mask t2 <> 0) by (rewrite Em2; exact Hnz1).
+        assert (Hlen2 : length (slots t2) = nb T t) by (rewrite Esl2, Esl1; exact Hlen).
+        rewrite (slot_ref_ok T t2 i e Hnz2 ltac:(lia) Ee2). cbn [bind].
+        rewrite (slot_write_ok T t2 ni e Hnz2 ltac:(lia)). cbn [bind].
+        eexists _, true. split; [reflexivity|].
+        set (t' := with_slots T (with_slots T t2 _) _).
+        assert (Eslots : slots t' = upd (upd (slots t) ni (Some e)) i None).
+        { unfold t'. cbn [slots with_slots]. rewrite Esl2, Esl1. reflexivity. }
+        assert (Eby : forall j, byte T t' j = byte T t2 j) by reflexivity.
+        assert (Hby2 : forall j, j < nb T t ->
+                  byte T t2 j = if j =? i then EMPTY else if j =? ni then tag_full hash else byte T t j).
+        { intros j Hj. rewrite (Hb2 j ltac:(lia)), (Hb1 j Hj). reflexivity. }
+        split.
+        { apply (RInv_ext t t2 t' HR HS2 HM2 (eq_trans Em2 Em1) (eq_trans Eit2 Eit1)); try reflexivity.
+          - lia.
+          - rewrite Eslots, upd2_length; lia.
+          - intros j Hj. unfold slot. rewrite Eslots, nth_upd2 by lia. rewrite (Hby2 j Hj).
+            destruct (Nat.eqb_spec j i) as [->|Hji].
+            + split; [intros X; exfalso; apply X; reflexivity|intros [X | X]; discriminate X].
+            + destruct (Nat.eqb_spec j ni) as [->|Hjn].
+              * rewrite tag_full_is_full. split; [intros _; left; reflexivity|discriminate].
+              * apply (Hsl j Hj). }
+        split; [exact (eq_trans Em2 Em1)|]. split; [exact (eq_trans Eit2 Eit1)|].
+        split.
+        { rewrite !occupants_occ, Eslots.
+          pose proof (occ_swap (slots t) ni i Hne ltac:(lia) ltac:(lia)) as P.
+          fold (slot T t i) in P. fold (slot T t ni) in P. rewrite Ee, Hnone in P. exact P. }
+        change (ndel t') with (ndel t2).
+        split; [lia|]. split.
+        { intros j Hj. rewrite Eby, (Hby2 j Hj).
+          destruct (Nat.eqb_spec j i) as [->|Hji]; [intros _; exact Hbi|].
+          destruct (Nat.eqb_spec j ni) as [->|Hjn]; [|intros X; exact X].
+          intros X. exfalso. exact (tag_full_not_deleted hash X). }
+        split; [|discriminate]. intros _. split; [|lia].
+        rewrite Eby, (Hby2 i Hi), Nat.eqb_refl. discriminate.
+      + (* the target bucket holds another not-yet-rehashed element: swap and go on *)
+        rewrite Hpd in Cf1, Cd1 |- *.
+        change (DELETED =? EMPTY)%Z with false. cbv iota.
+        change (is_full DELETED) with false in Cf1. change (is_deleted DELETED) with true in Cd1.
+        cbn [b2n] in Cf1, Cd1.
+        unfold swap_slots.
+        rewrite (nth_error_nth' (slots t1) None) by (rewrite Esl1; lia).
+        rewrite (nth_error_nth' (slots t1) None) by (rewrite Esl1; lia).
+        rewrite Esl1. cbn [bind].
+        set (t2 := with_slots T t1 _).
+        assert (Eslots : slots t2 = upd (upd (slots t) i (nth ni (slots t) None)) ni (nth i (slots t) None))
+          by reflexivity.
+        assert (Eby : forall j, byte T t2 j = byte T t1 j) by reflexivity.
+        assert (HR2 : RInv t2).
+        { apply (RInv_ext t t1 t2 HR HS1 HM1 Em1 Eit1); try reflexivity.
+          - lia.
+          - rewrite Eslots, upd2_length; lia.
+          - intros j Hj. unfold slot. rewrite Eslots, nth_upd2 by lia. rewrite (Hb1 j Hj).
+            destruct (Nat.eqb_spec j ni) as [->|Hjn].
+            + fold (slot T t i). rewrite Ee, tag_full_is_full.
+              split; [intros _; left; reflexivity|discriminate].
+            + destruct (Nat.eqb_spec j i) as [->|Hji].
+              * fold (slot T t ni). rewrite (Hsl ni Hni).
+                split; intros _; right; assumption.
+              * apply (Hsl j Hj). }
+        assert (Em2 : mask t2 = mask t) by exact Em1.
+        assert (Enb2 : nb T t2 = nb T t) by exact Enb1.
+        assert (P2 : Permutation (occupants T t2) (occupants T t)).
+        { rewrite !occupants_occ, Eslots. apply occ_swap; lia. }
+        destruct (IH t2 i HR2 ltac:(lia) ltac:(rewrite Eby; exact Hb1i)
+                    ltac:(change (ndel t2) with (ndel t1); lia))
+          as (t' & ok & E' & HR' & Em' & Eit' & P' & Hd' & Hb' & Hok & Hfail).
+        change (ndel t2) with (ndel t1) in *.
+        exists t', ok. split; [exact E'|]. split; [exact HR'|].
+        split; [exact (eq_trans Em' Em2)|]. split; [exact (eq_trans Eit' Eit1)|].
+        split; [exact (perm_trans P' P2)|]. split; [lia|]. split.
+        { intros j Hj X. specialize (Hb' j ltac:(lia) X). rewrite Eby, (Hb1 j Hj) in Hb'.
+          revert Hb'. destruct (Nat.eqb_spec j ni) as [Hjn|Hjn]; intros Hb'; [|exact Hb'].
+          exfalso. exact (tag_full_not_deleted hash Hb'). }
+        split.
+        { intros Hk. destruct (Hok Hk) as [X Y]. split; [exact X|lia]. }
+        intros Hk. destruct (Hfail Hk) as (e' & Hin' & Hn'). exists e'. split; [|exact Hn'].
+        exact (Permutation_in _ P2 Hin').
+  Qed.
+
+  (* ---------------------------------------------------------------------------------------- *)
+  (* H4: the outer loop                                                                         *)
+  (* ---------------------------------------------------------------------------------------- *)
+  Theorem rehash_outer_spec : forall n t i,
+    RInv t -> i + n = nb T t -> (forall j, j < i -> byte T t j <> DELETED) ->
+    exists t' ok, rehash_outer B T hasher n t i = Ok (t', ok) /\
+      RInv t' /\ mask t' = mask t /\ items t' = items t /\
+      Permutation (occupants T t') (occupants T t) /\
+      (ok = true -> forall j, j < nb T t -> byte T t' j <> DELETED) /\
+      (ok = false -> exists e, In e (occupants T t) /\ hasher e = None).
+  Proof.
+    induction n as [|k IH]; intros t i HR Hn Hpre.
+    - exists t, true. split; [reflexivity|]. split; [exact HR|]. split; [reflexivity|].
+      split; [reflexivity|]. split; [apply Permutation_refl|]. split; [|discriminate].
+      intros _ j Hj. apply Hpre. lia.
+    - pose proof HR as (HS & _). cbn [rehash_outer].
+      rewrite (ctrl_at_ok B T t HS i ltac:(lia)). cbn [bind].
+      destruct (Z.eqb_spec (byte T t i) DELETED) as [Hd|Hnd]; cbn [negb]; cbv iota.
+      + destruct (rehash_inner_spec (S (buckets T t)) t i HR ltac:(lia) Hd
+                    ltac:(pose proof (ndel_le t HS); unfold nb in *; lia))
+          as (t1 & ok & E1 & HR1 & Em1 & Eit1 & P1 & _ & Hb1 & Hok & Hfail).
+        rewrite E1. cbn [bind]. destruct ok.
+        * destruct (Hok eq_refl) as [Hni _].
+          assert (Enb1 : nb T t1 = nb T t) by (unfold nb, buckets; rewrite Em1; reflexivity).
+          assert (Hpre1 : forall j, j < S i -> byte T t1 j <> DELETED).
+          { intros j Hj. destruct (Nat.eq_dec j i) as [->|Hji]; [exact Hni|].
+            intros X. apply (Hpre j ltac:(lia)). apply Hb1; [lia|exact X]. }
+          destruct (IH t1 (S i) HR1 ltac:(lia) Hpre1)
+            as (t' & ok' & E' & HR' & Em' & Eit' & P' & Hok' & Hfail').
+          exists t', ok'. split; [exact E'|]. split; [exact HR'|].
+          split; [exact (eq_trans Em' Em1)|]. split; [exact (eq_trans Eit' Eit1)|].
+          split; [exact (perm_trans P' P1)|]. split.
+          { intros Hk j Hj. apply (Hok' Hk). lia. }
+          intros Hk. destruct (Hfail' Hk) as (e & Hin & Hn'). exists e. split; [|exact Hn'].
+          exact (Permutation_in _ P1 Hin).
+        * exists t1, false. split; [reflexivity|]. split; [exact HR1|]. split; [exact Em1|].
+          split; [exact Eit1|]. split; [exact P1|]. split; [discriminate|]. intros _. apply Hfail. reflexivity.
+      + assert (Hpre1 : forall j, j < S i -> byte T t j <> DELETED).
+        { intros j Hj. destruct (Nat.eq_dec j i) as [->|Hji]; [exact Hnd|]. apply Hpre. lia. }
+        exact (IH t (S i) HR ltac:(lia) Hpre1).
+  Qed.
+
+  (* ---------------------------------------------------------------------------------------- *)
+  (* H5: the guard (repaired source: the reset loop runs whether or not T needs drop)           *)
+  (* ---------------------------------------------------------------------------------------- *)
+  (* the elements sitting in DELETED buckets i .. i+n-1, in bucket order *)
+  Definition del_from (t : table T) (i n : nat) : list T :=
+    flat_map (fun j => if is_deleted (byte T t j) then opt_list (slot T t j) else []) (seq i n).
+
+  Lemma del_from_S t i n :
+    del_from t i (S n) =
+    (if is_deleted (byte T t i) then opt_list (slot T t i) else []) ++ del_from t (S i) n.
+  Proof. reflexivity. Qed.
+
+  Lemma del_from_ext t t' : forall n i,
+    (forall j, i <= j < i + n -> byte T t' j = byte T t j /\ slot T t' j = slot T t j) ->
+    del_from t' i n = del_from t i n.
+  Proof.
+    induction n as [|n IH]; intros i H; [reflexivity|].
+    rewrite !del_from_S. destruct (H i ltac:(lia)) as [-> ->]. f_equal.
+    apply IH. intros j Hj. apply H. lia.
+  Qed.
+
+  (* when no DELETED byte is left, RInv + the final growth_left assignment is SafeWF *)
+  Lemma RInv_finish t : RInv t -> (forall j, j < nb T t -> byte T t j <> DELETED) ->
+    SafeWF B T (with_counts T t (items t) (wsub 64 (z_cap (mask t)) (items t))) /\
+    wsub 64 (z_cap (mask t)) (items t) = (z_cap (mask t) - items t)%Z.
+  Proof.
+    intros (HS & HM & Hsl & Hit & Hcap) Hnd.
+    pose proof (ndel_zero t HS Hnd) as Hd0.
+    pose proof (z_cap_lt (mask t) (Shape_MaskOK B T t HS)) as Hc.
+    pose proof (Shape_nb_bound B T t HS) as Hnb. rewrite two_p_62 in Hnb.
+    assert (Hw : wsub 64 (z_cap (mask t)) (items t) = (z_cap (mask t) - items t)%Z).
+    { unfold wsub. apply wrap_small. rewrite two_p_64. unfold zn, nb, buckets in *. lia. }
+    split; [|exact Hw].
+    set (t' := with_counts T t _ _).
+    apply SafeWF_of_parts.
+    - apply (Shape_ext B T t t'); [reflexivity|reflexivity|reflexivity|exact HS].
+    - apply (Mirror_ext B T t t'); [reflexivity|reflexivity|exact HM].
+    - unfold Count. change (real_ctrl T t') with (real_ctrl T t).
+      change (items t') with (items t). change (mask t') with (mask t).
+      change (growth_left t') with (wsub 64 (z_cap (mask t)) (items t)). rewrite Hw.
+      unfold nfull, ndel in *. rewrite Hd0 in *.
+      split; [rewrite Hit; f_equal; lia|]. split; [unfold zn; lia|]. split; [lia|].
+      intros j Hj. change (nb T t') with (nb T t) in Hj.
+      change (slot T t' j) with (slot T t j). change (byte T t' j) with (byte T t j).
+      rewrite (Hsl j Hj). split; [intros [X | X]; [exact X|exfalso; exact (Hnd j Hj X)]|intros X; left; exact X].
+  Qed.
+
+  Lemma guard_loop_spec (nd : bool) : forall n t i evs,
+    RInv t -> i + n = nb T t -> (forall j, j < i -> byte T t j <> DELETED) ->
+    exists t', guard_loop B T nd n t i evs =
+                 Ok (t', evs ++ if nd then map EvDrop (del_from t i n) else []) /\
+      RInv t' /\ mask t' = mask t /\
+      (forall j, j < nb T t -> byte T t' j <> DELETED) /\
+      items t' = (items t - zn (length (del_from t i n)))%Z /\
+      Permutation (occupants T t) (occupants T t' ++ del_from t i n).
+  Proof.
+    induction n as [|k IH]; intros t i evs HR Hn Hpre.
+    - exists t. cbn [guard_loop]. change (del_from t i 0) with (@nil T). split.
+      { destruct nd; cbn [map]; rewrite app_nil_r; reflexivity. }
+      split; [exact HR|]. split; [reflexivity|]. split; [intros j Hj; apply Hpre; lia|].
+      split; [cbn [length]; unfold zn; lia|]. rewrite app_nil_r. apply Permutation_refl.
+    - pose proof HR as (HS & HM & Hsl & Hit & Hcap).
+      pose proof HS as (_ & _ & Hlen & _).
+      pose proof (RInv_mask_nz t HR) as Hnz.
+      assert (Hi : i < nb T t) by lia.
+      cbn [guard_loop]. rewrite (ctrl_at_ok B T t HS i Hi). cbn [bind].
+      rewrite del_from_S. fold (is_deleted (byte T t i)).
+      destruct (is_deleted (byte T t i)) eqn:Hd.
+      + apply is_deleted_eq in Hd.
+        destruct (slot T t i) as [e|] eqn:Ee;
+          [|exfalso; exact (proj2 (Hsl i Hi) (or_intror Hd) Ee)].
+        destruct (set_ctrl_counts t i EMPTY HS HM Hi valid_EMPTY)
+          as (t1 & E1 & Em1 & Esl1 & Eit1 & HS1 & HM1 & Hb1 & Cf & Cd).
+        rewrite E1. cbn [bind].
+        rewrite Hd in Cf, Cd.
+        change (is_full DELETED) with false in Cf. change (is_deleted DELETED) with true in Cd.
+        change (is_full EMPTY) with false in Cf. change (is_deleted EMPTY) with false in Cd.
+        cbn [b2n] in Cf, Cd.
+        pose proof (z_cap_lt (mask t) (Shape_MaskOK B T t HS)) as Hc.
+        pose proof (Shape_nb_bound B T t HS) as Hnbb. rewrite two_p_62 in Hnbb.
+        assert (Hw : wsub 64 (items t1) 1 = (items t - 1)%Z).
+        { rewrite Eit1. apply wsub1_small. rewrite two_p_62. unfold zn, nb, buckets in *. lia. }
+        set (tn := with_counts T (with_slots T t1 (upd (slots t1) i None)) (wsub 64 (items t1) 1) (growth_left t1)).
+        assert (Eslots : slots tn = upd (slots t) i None) by (unfold tn; cbn [slots with_counts with_slots]; rewrite Esl1; reflexivity).
+        assert (Emn : mask tn = mask t) by exact Em1.
+        assert (Enbn : nb T tn = nb T t) by (unfold nb, buckets; rewrite Emn; reflexivity).
+        assert (Ebyn : forall j, byte T tn j = byte T t1 j) by reflexivity.
+        assert (Esln : forall j, slot T tn j = if j =? i then None else slot T t j).
+        { intros j. unfold slot. rewrite Eslots. apply nth_upd. lia. }
+        assert (HRn : RInv tn).
+        { split; [|split; [|split; [|split]]].
+          - apply (Shape_ext B T t1 tn); [reflexivity|reflexivity| |exact HS1].
+            rewrite Eslots, Esl1. apply upd_length. lia.
+          - apply (Mirror_ext B T t1 tn); [reflexivity|reflexivity|exact HM1].
+          - intros j Hj. rewrite Enbn in Hj. rewrite Esln, Ebyn, (Hb1 j Hj).
+            destruct (Nat.eqb_spec j i) as [->|Hji]; [|apply (Hsl j Hj)].
+            split; [intros X; exfalso; apply X; reflexivity|intros [X | X]; discriminate X].
+          - change (items tn) with (wsub 64 (items t1) 1). rewrite Hw.
+            change (nfull tn) with (nfull t1). change (ndel tn) with (ndel t1).
+            rewrite Hit. unfold zn. lia.
+          - change (items tn) with (wsub 64 (items t1) 1). rewrite Hw, Emn. lia. }
+        assert (Hpren : forall j, j < S i -> byte T tn j <> DELETED).
+        { intros j Hj. rewrite Ebyn, (Hb1 j ltac:(lia)).
+          destruct (Nat.eqb_spec j i) as [->|Hji]; [discriminate|]. apply Hpre. lia. }
+        assert (Edel : del_from tn (S i) k = del_from t (S i) k).
+        { apply del_from_ext. intros j Hj. rewrite Esln, Ebyn, (Hb1 j ltac:(lia)).
+          destruct (Nat.eqb_spec j i); [lia|]. split; reflexivity. }
+        assert (Ho : Permutation (occupants T t) (e :: occupants T tn)).
+        { rewrite !occupants_occ, Eslots. rewrite occ_upd by lia.
+          rewrite (occ_split (slots t) i) by lia. fold (slot T t i). rewrite Ee. cbn [opt_list app].
+          symmetry. apply Permutation_middle. }
+        assert (Hfin : forall evs', exists t',
+                  guard_loop B T nd k tn (S i) evs' =
+                    Ok (t', evs' ++ if nd then map EvDrop (del_from t (S i) k) else []) /\
+                  RInv t' /\ mask t' = mask t /\ (forall j, j < nb T t -> byte T t' j <> DELETED) /\
+                  items t' = (items t - zn (length (e :: del_from t (S i) k)))%Z /\
+                  Permutation (occupants T t) (occupants T t' ++ e :: del_from t (S i) k)).
+        { intros evs'. destruct (IH tn (S i) evs' HRn ltac:(lia) Hpren)
+            as (t' & E' & HR' & Em' & Hnd' & Eit' & P').
+          rewrite Edel in *. exists t'. split; [exact E'|]. split; [exact HR'|].
+          split; [exact (eq_trans Em' Emn)|]. split; [intros j Hj; apply Hnd'; lia|]. split.
+          - rewrite Eit'. change (items tn) with (wsub 64 (items t1) 1). rewrite Hw.
+            cbn [length]. unfold zn. lia.
+          - apply (perm_trans Ho). apply perm_trans with (e :: occupants T t' ++ del_from t (S i) k).
+            + apply perm_skip. exact P'.
+            + apply Permutation_middle. }
+        cbn [opt_list app].
+        destruct nd.
+        * unfold slot_take.
+          assert (Ee1 : slot T t1 i = Some e) by (unfold slot; rewrite Esl1; exact Ee).
+          rewrite (slot_ref_ok T t1 i e ltac:(rewrite Em1; exact Hnz) ltac:(rewrite Esl1; lia) Ee1).
+          cbn [bind].
+          change (with_counts T (with_slots T t1 (upd (slots t1) i None))
+                    (wsub 64 (items (with_slots T t1 (upd (slots t1) i None))) 1)
+                    (growth_left (with_slots T t1 (upd (slots t1) i None)))) with tn.
+          destruct (Hfin (evs ++ [EvDrop e])) as (t' & E' & Hrest).
+          exists t'. split; [|exact Hrest]. rewrite E'. cbn [map]. rewrite <- app_assoc. reflexivity.
+        * fold tn. destruct (Hfin evs) as (t' & E' & Hrest).
+          exists t'. split; [exact E'|exact Hrest].
+      + assert (Hnd : byte T t i <> DELETED).
+        { intros X. apply is_deleted_eq in X. rewrite X in Hd. discriminate Hd. }
+        assert (Hpre1 : forall j, j < S i -> byte T t j <> DELETED).
+        { intros j Hj. destruct (Nat.eq_dec j i) as [->|Hji]; [exact Hnd|]. apply Hpre. lia. }
+        cbn [app]. exact (IH t (S i) evs HR ltac:(lia) Hpre1).
+  Qed.
+
+  Theorem rehash_guard_spec t : RInv t ->
+    exists t', rehash_guard B T needs_drop true t =
+                 Ok (t', if needs_drop then map EvDrop (del_from t 0 (nb T t)) else []) /\
+      SafeWF B T t' /\ mask t' = mask t /\
+      (forall j, j < nb T t -> byte T t' j <> DELETED) /\
+      items t' = (items t - zn (length (del_from t 0 (nb T t))))%Z /\
+      growth_left t' = (z_cap (mask t) - items t')%Z /\
+      Permutation (occupants T t) (occupants T t' ++ del_from t 0 (nb T t)).
+  Proof.
+    intros HR. unfold rehash_guard. rewrite orb_true_r.
+    destruct (guard_loop_spec needs_drop (buckets T t) t 0 [] HR eq_refl ltac:(intros j Hj; lia))
+      as (t1 & E1 & HR1 & Em1 & Hnd1 & Eit1 & P1).
+    rewrite E1. cbn [bind app].
+    assert (Enb1 : nb T t1 = nb T t) by (unfold nb, buckets; rewrite Em1; reflexivity).
+    destruct (RInv_finish t1 HR1 ltac:(rewrite Enb1; exact Hnd1)) as [HW' Hw].
+    eexists. split; [reflexivity|]. split; [exact HW'|]. split; [exact Em1|].
+    split; [exact Hnd1|]. split; [exact Eit1|]. split; [|exact P1].
+    cbn [growth_left items with_counts]. rewrite Hw, Em1. reflexivity.
+  Qed.
+
+  (* ---------------------------------------------------------------------------------------- *)
+  (* H6: rehash_in_place                                                                        *)
+  (* ---------------------------------------------------------------------------------------- *)
+  Definition NoDeleted (t : table T) : Prop := forall j, j < nb T t -> byte T t j <> DELETED.
+
+  (* the detailed form: on unwinding the result also has growth_left = cap - items and no
+     DELETED byte, and the dropped elements are listed in bucket order of the interrupted state *)
+  Theorem rehash_in_place_full t : SafeWF B T t -> mask t <> 0 ->
+    exists t' evs unw, rehash_in_place B T needs_drop hasher true t = Ok (t', evs, unw) /\
+      SafeWF B T t' /\ mask t' = mask t /\ NoDeleted t' /\
+      growth_left t' = (z_cap (mask t) - items t')%Z /\
+      (unw = false -> evs = [] /\ Permutation (occupants T t') (occupants T t) /\ items t' = items t) /\
+      (unw = true ->
+         (exists tm, RInv tm /\ mask tm = mask t /\ items tm = items t /\
+            Permutation (occupants T tm) (occupants T t) /\
+            let dropped := del_from tm 0 (nb T tm) in
+            Permutation (occupants T tm) (occupants T t' ++ dropped) /\
+            evs = (if needs_drop then map EvDrop dropped else []) /\
+            items t' = (items t - zn (length dropped))%Z) /\
+         (exists e, In e (occupants T t) /\ hasher e = None)).
+  Proof.
+    intros H Hm.
+    destruct (prepare_RInv t H Hm) as (t0 & E0 & Em0 & Esl0 & Eit0 & HR0 & Hb0).
+    assert (Eo0 : occupants T t0 = occupants T t) by (rewrite !occupants_occ, Esl0; reflexivity).
+    unfold rehash_in_place. rewrite E0. cbn [bind].
+    destruct (rehash_outer_spec (buckets T t0) t0 0 HR0 eq_refl ltac:(intros j Hj; lia))
+      as (t1 & ok & E1 & HR1 & Em1 & Eit1 & P1 & Hok & Hfail).
+    rewrite E1. cbn [bind].
+    assert (Enb1 : nb T t1 = nb T t) by (unfold nb, buckets; rewrite Em1, Em0; reflexivity).
+    assert (Enb0 : nb T t0 = nb T t) by (unfold nb, buckets; rewrite Em0; reflexivity).
+    destruct ok.
+    - assert (Hnd : forall j, j < nb T t1 -> byte T t1 j <> DELETED).
+      { intros j Hj. apply (Hok eq_refl). lia. }
+      destruct (RInv_finish t1 HR1 Hnd) as [HW' Hw].
+      eexists _, [], false. split; [reflexivity|]. split; [exact HW'|].
+      split; [exact (eq_trans Em1 Em0)|]. split; [exact Hnd|]. split.
+      { cbn [growth_left items with_counts]. rewrite Hw, Em1, Em0. reflexivity. }
+      split; [|discriminate]. intros _. split; [reflexivity|]. split.
+      + change (occupants T (with_counts T t1 _ _)) with (occupants T t1). rewrite <- Eo0. exact P1.
+      + cbn [items with_counts]. rewrite Eit1. exact Eit0.
+    - destruct (rehash_guard_spec t1 HR1) as (t2 & E2 & HW2 & Em2 & Hnd2 & Eit2 & Egl2 & P2).
+      rewrite E2. cbn [bind].
+      assert (Enb2 : nb T t2 = nb T t) by (unfold nb, buckets; rewrite Em2, Em1, Em0; reflexivity).
+      eexists t2, _, true. split; [reflexivity|]. split; [exact HW2|].
+      split; [exact (eq_trans Em2 (eq_trans Em1 Em0))|].
+      split; [intros j Hj; apply Hnd2; lia|].
+      split; [rewrite Egl2, Em1, Em0; reflexivity|].
+      split; [discriminate|]. intros _. split.
+      + exists t1. split; [exact HR1|]. split; [exact (eq_trans Em1 Em0)|].
+        split; [exact (eq_trans Eit1 Eit0)|]. split; [rewrite <- Eo0; exact P1|].
+        cbv zeta. split; [exact P2|]. split; [reflexivity|].
+        rewrite Eit2, Eit1, Eit0. reflexivity.
+      + destruct (Hfail eq_refl) as (e & Hin & Hn). exists e. split; [|exact Hn].
+        rewrite <- Eo0. exact Hin.
+  Qed.
+
+  (* MAIN THEOREM: for every hasher, rehash_in_place on an allocated SafeWF table never fails
+     (no UB, no OutOfFuel), returns a SafeWF table of the same size, keeps the multiset of
+     elements when it completes, and on unwinding loses exactly the elements it reports as
+     dropped (or forgotten when T needs no drop) *)
+  Theorem rehash_in_place_safe t : SafeWF B T t -> mask t <> 0 ->
+    exists t' evs unw, rehash_in_place B T needs_drop hasher true t = Ok (t', evs, unw) /\
+      SafeWF B T t' /\ mask t' = mask t /\
+      (unw = false -> evs = [] /\ Permutation (occupants T t') (occupants T t) /\
+                      items t' = items t /\
+                      growth_left t' = (z_cap (mask t) - items t)%Z /\
+                      (forall j, j < nb T t -> byte T t' j <> DELETED)) /\
+      (unw = true -> exists dropped, Permutation (occupants T t) (occupants T t' ++ dropped) /\
+                      evs = (if needs_drop then map EvDrop dropped else []) /\
+                      items t' = (items t - zn (length dropped))%Z) /\
+      (unw = true -> exists e, In e (occupants T t) /\ hasher e = None).
+  Proof.
+    intros H Hm.
+    destruct (rehash_in_place_full t H Hm) as (t' & evs & unw & E & HW' & Em & Hnd & Egl & Hok & Hunw).
+    exists t', evs, unw. split; [exact E|]. split; [exact HW'|]. split; [exact Em|].
+    assert (Enb : nb T t' = nb T t) by (unfold nb, buckets; rewrite Em; reflexivity).
+    split; [|split].
+    - intros Hu. destruct (Hok Hu) as (He & P & Eit). split; [exact He|]. split; [exact P|].
+      split; [exact Eit|]. split; [rewrite Egl, Eit; reflexivity|].
+      intros j Hj. apply Hnd. lia.
+    - intros Hu. destruct (Hunw Hu) as [(tm & _ & _ & _ & Pm & Hd) _]. cbv zeta in Hd.
+      destruct Hd as (P & Hev & Eit). eexists. split; [|split; [exact Hev|exact Eit]].
+      apply (perm_trans (Permutation_sym Pm)). exact P.
+    - intros Hu. exact (proj2 (Hunw Hu)).
+  Qed.
+
+  (* a hasher that does not panic on the elements of the table never triggers the guard *)
+  Theorem rehash_in_place_no_unwind t : SafeWF B T t -> mask t <> 0 ->
+    (forall e, In e (occupants T t) -> hasher e <> None) ->
+    exists t', rehash_in_place B T needs_drop hasher true t = Ok (t', [], false) /\
+      SafeWF B T t' /\ mask t' = mask t /\
+      Permutation (occupants T t') (occupants T t) /\ items t' = items t /\
+      growth_left t' = (z_cap (mask t) - items t)%Z /\
+      (forall j, j < nb T t -> byte T t' j <> DELETED).
+  Proof.
+    intros H Hm Hh.
+    destruct (rehash_in_place_safe t H Hm) as (t' & evs & unw & E & HW' & Em & Hok & _ & Hfail).
+    destruct unw.
+    - exfalso. destruct (Hfail eq_refl) as (e & Hin & Hn). exact (Hh e Hin Hn).
+    - destruct (Hok eq_refl) as (-> & P & Eit & Egl & Hnd).
+      exists t'. split; [exact E|]. split; [exact HW'|]. split; [exact Em|].
+      split; [exact P|]. split; [exact Eit|]. split; [exact Egl|exact Hnd].
+  Qed.
+
+  (* the property in its negative form: no error of the model is reachable, in particular
+     neither undefined behaviour nor exhaustion of the loop bound the code relies on *)
+  Corollary rehash_in_place_never_fails t err : SafeWF B T t -> mask t <> 0 ->
+    rehash_in_place B T needs_drop hasher true t <> Fail err.
+  Proof.
+    intros H Hm. destruct (rehash_in_place_safe t H Hm) as (t' & evs & unw & E & _).
+    rewrite E. discriminate.
+  Qed.
 End Rehash.
+
+Print Assumptions prepare_rehash_in_place_spec.
+Print Assumptions prepare_RInv.
+Print Assumptions find_insert_slot_terminates_E.
+Print Assumptions rehash_inner_spec.
+Print Assumptions rehash_outer_spec.
+Print Assumptions rehash_guard_spec.
+Print Assumptions rehash_in_place_full.
+Print Assumptions rehash_in_place_safe.
+Print Assumptions rehash_in_place_no_unwind.
+Print Assumptions rehash_in_place_never_fails.
